@@ -15,6 +15,8 @@
 //	xs <key>                              ExpireSession
 //	req <authorization header|-> <cookie value|->             GET through the AuthenticationHandler
 //	                                      -> <status> <inner handler reached> <PermissionSet ok|err|-> <user id>
+//	phc <decoders 1|2|3> <256|512> <mangle 0..7> <pw> <q>     AuthorizationHasher(variant, decoder variants).Hash(pw),
+//	                                      damage the encoded digest, .Match(digest, q) -> 1|0|err fmt|ident|key
 package main
 
 import (
@@ -27,6 +29,7 @@ import (
 	"sync"
 	"time"
 
+	"github.com/go-crypt/crypt/algorithm"
 	influxdb "github.com/influxdata/influxdb/v2"
 	"github.com/influxdata/influxdb/v2/authorization"
 	icontext "github.com/influxdata/influxdb/v2/context"
@@ -35,6 +38,7 @@ import (
 	"github.com/influxdata/influxdb/v2/kit/platform"
 	"github.com/influxdata/influxdb/v2/kit/platform/errors"
 	kithttp "github.com/influxdata/influxdb/v2/kit/transport/http"
+	influxdb2algo "github.com/influxdata/influxdb/v2/pkg/crypt/algorithm/influxdb2"
 	"github.com/influxdata/influxdb/v2/session"
 	"github.com/influxdata/influxdb/v2/tenant"
 	"go.uber.org/zap"
@@ -320,6 +324,79 @@ func (r *runner) Op(t []string) string {
 			return tops.Code(err)
 		}
 		return "ok"
+	case t[0] == "phc" && len(t) == 6:
+		var ds []influxdb2algo.Variant
+		switch t[1] {
+		case "1":
+			ds = []influxdb2algo.Variant{influxdb2algo.VariantSHA256}
+		case "2":
+			ds = []influxdb2algo.Variant{influxdb2algo.VariantSHA512}
+		case "3":
+			ds = []influxdb2algo.Variant{influxdb2algo.VariantSHA256, influxdb2algo.VariantSHA512}
+		default:
+			return bad
+		}
+		var v, other influxdb2algo.Variant
+		switch t[2] {
+		case "256":
+			v, other = influxdb2algo.VariantSHA256, influxdb2algo.VariantSHA512
+		case "512":
+			v, other = influxdb2algo.VariantSHA512, influxdb2algo.VariantSHA256
+		default:
+			return bad
+		}
+		m, err := strconv.Atoi(t[3])
+		pw, ok1 := tops.NameTok(t[4])
+		q, ok2 := tops.NameTok(t[5])
+		if err != nil || m < 0 || m > 7 || len(t[3]) != 1 || !ok1 || !ok2 {
+			return bad
+		}
+		// the hasher needs its own variant among its decoders only for decoding, not for hashing
+		hs, err := authorization.NewAuthorizationHasher(authorization.WithHasherVariant(v), authorization.WithDecoderVariants([]influxdb2algo.Variant{v}))
+		if err != nil {
+			panic(err)
+		}
+		phc, err := hs.Hash(pw)
+		if err != nil {
+			panic(err)
+		}
+		sec := strings.SplitN(phc, "$", 3) // "", identifier, key
+		if len(sec) != 3 || sec[0] != "" || sec[1] != v.Prefix() || sec[2] == "" {
+			return "unexpected-digest:" + phc
+		}
+		switch m {
+		case 1:
+			phc = phc[1:]
+		case 2:
+			phc = "x" + phc
+		case 3:
+			phc = "$" + other.Prefix() + "$" + sec[2]
+		case 4:
+			phc = "$influxdb2-md5$" + sec[2]
+		case 5:
+			phc = "$" + sec[1] + "$"
+		case 6:
+			phc += "$zz"
+		case 7:
+			phc = "$" + sec[1]
+		}
+		dec, err := authorization.NewAuthorizationHasher(authorization.WithHasherVariant(ds[0]), authorization.WithDecoderVariants(ds))
+		if err != nil {
+			panic(err)
+		}
+		match, err := dec.Match(phc, q)
+		switch {
+		case err == nil:
+			return h.B(match)
+		case stderrors.Is(err, algorithm.ErrEncodedHashKeyEncoding):
+			return "err key"
+		case stderrors.Is(err, algorithm.ErrEncodedHashInvalidIdentifier):
+			return "err ident"
+		case stderrors.Is(err, algorithm.ErrEncodedHashInvalidFormat):
+			return "err fmt"
+		default:
+			return "err other"
+		}
 	case t[0] == "req" && len(t) == 3:
 		rq := httptest.NewRequest("GET", "/api/v2/anything", nil)
 		if t[1] != "-" {
@@ -431,6 +508,17 @@ func gen(r *h.Rand, tier string, emit func([]string)) {
 				ops = append(ops, "cs "+h.HexS(h.Pick(r, append(append([]string{}, names[:nu]...), names[0], "nobody")))+" "+h.Pick(r, []string{"long", "long", "long", "exp"}))
 			case k < 64:
 				ops = append(ops, "xs "+h.HexS(h.Pick(r, keys)))
+			case k < 72:
+				p := h.Pick(r, []string{"tokA", "tokB", "", "a", "tokA ", "Password1"})
+				q := p
+				if r.Chance(0.4) {
+					q = h.Pick(r, []string{"tokA", "tokB", "", "tokA ", "toka"})
+				}
+				m := "0"
+				if r.Chance(0.45) {
+					m = strconv.Itoa(1 + r.Intn(7))
+				}
+				ops = append(ops, "phc "+h.Pick(r, []string{"1", "2", "3", "3"})+" "+h.Pick(r, []string{"256", "512"})+" "+m+" "+h.HexS(p)+" "+h.HexS(q))
 			default:
 				hd, ck := "-", "-"
 				switch r.Intn(12) {
